@@ -31,10 +31,45 @@ def oracle (n : Nat) (L R : Arr) (c : Bool → Bool → Bool) (d : Bool → Bool
 
 def firstFail (xs : List (Option String)) : Option String := xs.findSome? id
 
-/-- the predicate on one observed result -/
-def checkRes (n : Nat) (res : Arr) (want : Array Bool) (q : Nat → Bool) : Option String :=
+/-- pseudo-random valuations for diagrams too wide for a full truth table (SplitMix-style mixing of the
+    index); the projection clause is then checked on `samples` valuations instead of all 2^n -/
+def sampleVal (n k : Nat) : Nat → Bool := fun j =>
+  let z := (k + 1) * 0x9E3779B97F4A7C15 % 2 ^ 64
+  let z := (z ^^^ (z >>> 29)) * 0xBF58476D1CE4E5B9 % 2 ^ 64
+  let z := (z ^^^ (z >>> 32))
+  j < n && (z >>> (j % 60)) % 2 == 1
+
+def samples : Nat := 16384
+
+/-- at most this many quantified variables are re-assigned exhaustively in the sampled oracle -/
+def maxQuant : Nat := 8
+
+/-- the oracle at one valuation: fold `d` over `c (L v') (R v')` for every re-assignment `v'` of the
+    quantified variables `qs` (for `or`/`and` the order of the fold is irrelevant) -/
+def oracleAt (L R : Arr) (c d : Bool → Bool → Bool) (qs : List Nat) (v : Nat → Bool) : Bool :=
+  let vals := (List.range (2 ^ qs.length)).map fun a =>
+    let v' : Nat → Bool := fun j =>
+      match qs.idxOf? j with
+      | some i => (a >>> i) % 2 == 1
+      | none => v j
+    c (evalArr L v') (evalArr R v')
+  match vals with
+  | [] => false
+  | x :: xs => xs.foldl d x
+
+/-- projection clause on pseudo-random valuations (wide diagrams) -/
+def checkSampled (n : Nat) (res L R : Arr) (c d : Bool → Bool → Bool) (q : Nat → Bool) : Option String :=
+  let qs := (List.range n).filter q
+  if qs.length > maxQuant then none else
+  if (List.range samples).all fun k =>
+      let v := sampleVal n k
+      evalArr res v == oracleAt L R c d qs v then none else some "projection(sampled)"
+
+/-- the predicate on one observed result; `want` is the full oracle table (n ≤ maxTT) -/
+def checkRes (n : Nat) (res L R : Arr) (c d : Bool → Bool → Bool) (want : Array Bool) (q : Nat → Bool) : Option String :=
   firstFail [
-    if n > maxTT then none else if (ttOf res n).toList == want.toList then none else some "projection",
+    if n > maxTT then checkSampled n res L R c d q
+    else if (ttOf res n).toList == want.toList then none else some "projection",
     if (res.toList.drop 2).all (fun nd => !(q nd.var)) then none else some "support-not-disjoint",
     if numVars res == n then none else some "num-vars",
     if isCanon res then none else some "not-canonical"]
@@ -51,7 +86,7 @@ def qTag (n : Nat) (q : Nat → Bool) : String :=
   if n > 0 && k == n then "q-all" else if k == 0 then "q-none" else if k == 1 then "q-one" else "q-some"
 
 def tagsOf (kind : String) (n : Nat) (ops : List Arr) (q : Nat → Bool) : List String :=
-  [kind, s!"n{n}", qTag n q,
+  [kind, s!"n{n}", qTag n q, if ops.any (·.size > 65536) then "big>65536" else "small",
    if ops.any (·.size ≤ 2) then "const-operand" else "nonconst",
    if ops.all isCanon then "canon-operands" else "noncanon-operand"]
 
@@ -80,7 +115,7 @@ def verdict (kind : String) (n : Nat) (L R : Arr) (c d : Bool → Bool → Bool)
   let fail :=
     if expectPanic then (if obs.all (· == "panic") then none else some "outcome:expected-panic")
     else firstFail ((parsed.zip obs).map (fun (p, o) => match p with
-        | some A => checkRes n A want q
+        | some A => checkRes n A L R c d want q
         | none => some ("outcome:" ++ o))
       ++ [if obs.all (· == obs.headD "") then none else some "order-or-alias-dependent"])
   { agree := modelS == obsS, model := modelS, fail,
@@ -117,7 +152,7 @@ def handle (key : String) (ins obs : List String) : Verdict :=
     | some L, some v1, some v2 =>
       if !sameSet v1 v2 then Verdict.bad "lists are not the same set (harness bug)" else
       verdict "exists" (numVars L) L L (· && ·) (· || ·) (trigOfList v1)
-        [some (bddExists L v1), some (bddExists L v2), some (bddExists L v1)] obs
+        (let m := some (bddExists L v1); [m, some (bddExists L v2), m]) obs
     | _, _, _ => Verdict.bad "args"
   | "C03.forall", [l, vs1, vs2] =>
     match parseArr? l, parseVars? vs1, parseVars? vs2 with
